@@ -1,12 +1,14 @@
 //! C15 (resize part): the dynamically growing data segment.
 //! Drives the real `resizable_shared_memory::dynamic::{DynamicMemory, DynamicView}` over the pool
-//! allocator (posix shared memory by default, `local` = process-local flavour) with one owner and two
+//! allocator (posix shared memory) with one owner and two
 //! views, the way `port/details/data_segment.rs` uses them (publisher: allocate / deallocate_bucket,
 //! loaned sample: grow; subscriber: register_and_translate_offset / unregister_offset).
 //!
 //! Ops (one per line):
-//!   new <static|bestfit|pow2> <size> <align> <chunks> [posix|local]   -> ok | err:alloc:<e>
+//!   new <static|bestfit|pow2> <size> <align> <chunks>   -> ok base=<payload start mod page> | err:alloc:<e>
 //!   alloc <label> <size> <align>          -> ok:<seg>:<off> | err:<e> | dup
+//!   (write / dealloc / grow answer `tainted` for a chunk that came out of a grow which changed the segment id
+//!    but kept the offset: such a result may alias another chunk, the harness stops touching it)
 //!   write <label> <byte>                  -> ok | none           (fills the chunk through the owner's pointer)
 //!   dealloc <label>                       -> ok | none
 //!   grow <label> <size> <align> <front|back> -> ok:<seg>:<off> | err:<e> | none
@@ -36,13 +38,12 @@ use iceoryx2_bb_system_types::file_name::FileName;
 use iceoryx2_cal::named_concept::*;
 use iceoryx2_cal::resizable_shared_memory::dynamic::{DynamicMemory, DynamicView};
 use iceoryx2_cal::resizable_shared_memory::*;
-use iceoryx2_cal::shared_memory::{PointerOffset, SharedMemory, SharedMemoryBuilder, SharedMemoryForPoolAllocator, ShmPointer};
+use iceoryx2_cal::shared_memory::{PointerOffset, SharedMemoryBuilder, SharedMemoryForPoolAllocator, ShmPointer};
 use iceoryx2_cal::shm_allocator::pool_allocator::PoolAllocator;
 use std::collections::{BTreeMap, HashMap};
 use std::sync::atomic::{AtomicU64, Ordering};
 
 type PShm = iceoryx2_cal::shared_memory::posix::Memory<PoolAllocator>;
-type LShm = iceoryx2_cal::shared_memory::process_local::Memory<PoolAllocator>;
 
 static COUNTER: AtomicU64 = AtomicU64::new(0);
 const NVIEWS: usize = 2;
@@ -54,6 +55,8 @@ struct Chunk {
     live: bool,
     fill: Option<u8>, // Some(b): all `size` bytes are expected to be b
     generation: u64,
+    /// came out of a `grow` that changed the segment id but kept the offset: the harness does not touch it any more
+    tainted: bool,
 }
 struct Reg {
     ptr: *const u8,
@@ -230,7 +233,7 @@ where
                     Ok(p) => {
                         self.check_fresh(label, p, size, align);
                         self.generation += 1;
-                        self.chunks.insert(label, Chunk { ptr: p, size, align, live: true, fill: None, generation: self.generation });
+                        self.chunks.insert(label, Chunk { ptr: p, size, align, live: true, fill: None, generation: self.generation, tainted: false });
                         format!("ok:{}:{}", p.offset.segment_id().value(), p.offset.offset())
                     }
                     Err(e) => aerr(e).into(),
@@ -239,6 +242,7 @@ where
             "write" => {
                 let (label, b) = (n(t[1]) as u64, n(t[2]) as u8);
                 match self.chunks.get_mut(&label) {
+                    Some(c) if c.live && c.tainted => "tainted".into(),
                     Some(c) if c.live => {
                         unsafe { std::ptr::write_bytes(c.ptr.data_ptr, b, c.size) };
                         c.fill = Some(b);
@@ -250,6 +254,7 @@ where
             "dealloc" => {
                 let label = n(t[1]) as u64;
                 match self.chunks.get_mut(&label) {
+                    Some(c) if c.live && c.tainted => "tainted".into(),
                     Some(c) if c.live => {
                         c.live = false;
                         c.fill = None;
@@ -263,15 +268,19 @@ where
             "grow" => {
                 let (label, size, align) = (n(t[1]) as u64, n(t[2]), n(t[3]));
                 let placement = if t[4] == "back" { ContentPlacement::Back } else { ContentPlacement::Front };
-                let (old_ptr, old_size, old_align, old_fill) = match self.chunks.get(&label) {
-                    Some(c) if c.live => (c.ptr, c.size, c.align, c.fill),
+                let (old_ptr, old_size, old_align, old_fill, old_tainted) = match self.chunks.get(&label) {
+                    Some(c) if c.live => (c.ptr, c.size, c.align, c.fill, c.tainted),
                     _ => return "none".into(),
                 };
+                if old_tainted {
+                    return "tainted".into();
+                }
                 let old_l = Layout::from_size_align(old_size, old_align).unwrap();
                 let new_l = Layout::from_size_align(size, align).unwrap();
                 let before: Vec<u8> = unsafe { std::slice::from_raw_parts(old_ptr.data_ptr as *const u8, old_size) }.to_vec();
                 match unsafe { self.mem.grow(old_ptr, old_l, new_l, placement) } {
                     Ok(p) => {
+                        let n_before = ORACLE.with(|o| o.borrow().len());
                         if p.offset != old_ptr.offset {
                             // a different chunk: it must be a proper fresh allocation
                             self.chunks.get_mut(&label).unwrap().live = false;
@@ -284,9 +293,21 @@ where
                         if now != &before[..] {
                             oracle_fail(format!("grow-content: chunk {label} lost its content"));
                         }
+                        let seg_changed = p.offset.segment_id() != old_ptr.offset.segment_id();
+                        let tainted = seg_changed && p.offset.offset() == old_ptr.offset.offset();
+                        let failed = ORACLE.with(|o| o.borrow().len()) > n_before;
+                        if failed && tainted {
+                            // one stable message for the whole family
+                            ORACLE.with(|o| {
+                                let mut o = o.borrow_mut();
+                                let rest: Vec<String> = o.drain(n_before..).collect();
+                                o.push(format!("grow-alias: grow of chunk {label} of segment {} returned the same offset in segment {} without allocating it ({})",
+                                    old_ptr.offset.segment_id().value(), p.offset.segment_id().value(), rest.join(", ")));
+                            });
+                        }
                         self.generation += 1;
-                        let fill = if shift == 0 && size == old_size { old_fill } else { None };
-                        self.chunks.insert(label, Chunk { ptr: p, size, align, live: true, fill, generation: self.generation });
+                        let fill = if !failed && shift == 0 && size == old_size { old_fill } else { None };
+                        self.chunks.insert(label, Chunk { ptr: p, size, align, live: true, fill, generation: self.generation, tainted });
                         format!("ok:{}:{}", p.offset.segment_id().value(), p.offset.offset())
                     }
                     Err(e) => gerr(e).into(),
@@ -342,41 +363,223 @@ where
     }
 }
 
-enum W {
-    None,
-    Posix(World<PShm>),
-    Local(World<LShm>),
-}
 pub struct ResizeComp {
-    w: W,
+    w: Option<World<PShm>>,
 }
 impl ResizeComp {
     pub fn new() -> Self {
-        ResizeComp { w: W::None }
+        ResizeComp { w: None }
     }
 }
+
+/// where the payload of a segment starts relative to a page boundary (the pool allocator aligns its
+/// first bucket up from there): measured once on a segment with byte-aligned buckets
+fn payload_base() -> usize {
+    static BASE: std::sync::OnceLock<usize> = std::sync::OnceLock::new();
+    *BASE.get_or_init(|| {
+        let w = World::<PShm>::mk(&["new", "static", "1", "1", "1"]).expect("probe segment");
+        let p = w.mem.allocate(Layout::from_size_align(1, 1).unwrap()).expect("probe chunk");
+        (p.data_ptr as usize - p.offset.offset()) % 4096
+    })
+}
+
 impl Comp for ResizeComp {
     fn exec(&mut self, t: &[&str]) -> String {
         if t[0] == "new" {
-            self.w = W::None; // drop (and clean up) the previous world first
-            let local = t.get(5).map(|s| *s == "local").unwrap_or(false);
-            let r = if local { World::<LShm>::mk(t).map(W::Local) } else { World::<PShm>::mk(t).map(W::Posix) };
-            return match r {
+            self.w = None; // drop (and clean up) the previous world first
+            return match World::<PShm>::mk(t) {
                 Ok(w) => {
-                    self.w = w;
-                    "ok".into()
+                    self.w = Some(w);
+                    format!("ok base={}", payload_base())
                 }
                 Err(e) => e,
             };
         }
-        match &mut self.w {
-            W::Posix(w) => w.exec(t),
-            W::Local(w) => w.exec(t),
-            W::None => panic!("no world"),
-        }
+        self.w.as_mut().expect("no world").exec(t)
     }
 }
 
-pub fn generate(_a: &Args) -> Vec<Vec<String>> {
-    vec![]
+pub fn generate(a: &Args) -> Vec<Vec<String>> {
+    let mut rng = Rng::new(a.seed);
+    let mut cases: Vec<Vec<String>> = Vec::new();
+    let strategies = ["static", "bestfit", "pow2"];
+    if a.exhaustive > 0 {
+        // all sequences of length L over a small alphabet, for every strategy and two initial segments
+        let alphabet: Vec<String> = [
+            "alloc 0 8 8", "alloc 1 8 8", "alloc 1 24 8", "dealloc 0", "dealloc 1", "grow 0 24 8 front",
+            "view_register 0 0", "view_register 0 1", "view_unregister 0 0", "view_unregister 0 1",
+        ]
+        .iter()
+        .map(|s| s.to_string())
+        .collect();
+        for st in strategies {
+            for init in ["8 8 1", "8 8 2"] {
+                enumerate_seqs(&alphabet, a.exhaustive as usize, &mut |seq| {
+                    let mut lines = vec![format!("new {st} {init}")];
+                    for i in seq {
+                        lines.push(alphabet[*i].clone());
+                    }
+                    lines.push("segments".into());
+                    lines.push("view_segments 0".into());
+                    lines.push("view_read 0 0".into());
+                    lines.push("view_read 0 1".into());
+                    cases.push(lines);
+                });
+            }
+        }
+        return cases;
+    }
+    // fixed scenarios -------------------------------------------------------------------------
+    // two growths while view 0 holds a sample of the first segment; the second sample of an old
+    // segment stays valid when the first is released
+    for st in ["bestfit", "pow2"] {
+        cases.push(
+            [&format!("new {st} 8 8 2")[..], "alloc 0 8 8", "write 0 11", "alloc 1 8 8", "write 1 22", "view_register 0 0", "view_register 0 1", "view_register 1 1",
+             "alloc 2 24 8", "write 2 33", "segments", "view_register 0 2", "view_segments 0", "alloc 3 100 8", "write 3 44", "segments", "view_register 0 3",
+             "view_read 0 0", "view_read 0 1", "dealloc 2", "segments", "view_unregister 0 2", "view_segments 0", "view_unregister 0 0", "view_read 0 1", "view_segments 0",
+             "dealloc 0", "segments", "view_read 0 1", "view_read 1 1", "view_unregister 0 1", "view_segments 0", "dealloc 1", "segments", "view_unregister 1 1", "view_segments 1",
+             "view_unregister 0 3", "view_segments 0", "alloc 4 8 8", "alloc 5 8 8"]
+                .iter()
+                .map(|s| s.to_string())
+                .collect(),
+        );
+    }
+    // segment ids run out: growth by size with nothing live (old segments are released at once) ...
+    let mut l = vec!["new bestfit 1 1 1".to_string()];
+    for k in 1..=258 {
+        l.push(format!("alloc 0 {k} 1"));
+        if k % 50 == 0 || k > 250 {
+            l.push("segments".into());
+        }
+        l.push("dealloc 0".into());
+    }
+    cases.push(l);
+    // ... and with every chunk kept and registered in a view (256 segments alive and mapped)
+    let mut l = vec!["new bestfit 1 1 1".to_string()];
+    for k in 1..=258 {
+        l.push(format!("alloc {k} {k} 1"));
+        l.push(format!("write {k} {}", k % 255 + 1));
+        l.push(format!("view_register {} {k}", k % 2));
+        if k % 64 == 0 || k > 253 {
+            l.push("segments".into());
+            l.push("view_segments 0".into());
+        }
+    }
+    for k in [1, 2, 100, 255, 256, 257] {
+        l.push(format!("view_read {} {k}", k % 2));
+        l.push(format!("view_unregister {} {k}", k % 2));
+        l.push(format!("dealloc {k}"));
+    }
+    l.push("segments".into());
+    l.push("view_segments 0".into());
+    l.push("view_segments 1".into());
+    cases.push(l);
+    // ... and by the bucket lost to the alignment padding (one allocation walks through all ids)
+    for st in ["bestfit", "pow2"] {
+        cases.push(vec![format!("new {st} 16 16 1"), "alloc 0 16 16".into(), "segments".into(), "alloc 1 1 1".into(), "segments".into()]);
+    }
+    // random histories ---------------------------------------------------------------------------
+    let aligns_small = [1usize, 2, 4, 8, 8, 8];
+    let aligns_big = [16usize, 32, 64, 4096];
+    for _ in 0..a.cases {
+        let st = match rng.below(100) {
+            0..=11 => "static",
+            12..=57 => "bestfit",
+            _ => "pow2",
+        };
+        let ia = match rng.below(100) {
+            0..=84 => *rng.pick(&aligns_small),
+            85..=97 => *rng.pick(&aligns_big),
+            _ => 8192,
+        };
+        let isz = match rng.below(100) {
+            0..=1 => 0,
+            2..=49 => rng.range(1, 24) as usize,
+            _ => ia * rng.range(1, 6) as usize,
+        };
+        let ich = match rng.below(100) {
+            0 => 0,
+            1..=39 => 1,
+            40..=69 => 2,
+            _ => rng.range(3, 6) as usize,
+        };
+        let mut lines = vec![format!("new {st} {isz} {ia} {ich}")];
+        // the generator's belief (every call assumed to succeed) only steers the choice of labels
+        let nlabels = rng.range(2, 8);
+        let mut live: Vec<u64> = vec![];
+        let mut sizes: HashMap<u64, usize> = HashMap::new();
+        let mut regs: Vec<(u64, u64)> = vec![];
+        let mut cur = isz.max(1);
+        let nops = rng.range(1, a.len.max(1));
+        for _ in 0..nops {
+            let any_label = rng.below(nlabels);
+            let live_label = if live.is_empty() || rng.chance(8) { any_label } else { *rng.pick(&live) };
+            let l = match rng.below(100) {
+                0..=33 => {
+                    let free: Vec<u64> = (0..nlabels).filter(|x| !live.contains(x)).collect();
+                    let label = if free.is_empty() || rng.chance(6) { any_label } else { *rng.pick(&free) };
+                    let size = match rng.below(100) {
+                        0..=2 => 0,
+                        3..=64 => rng.range(1, cur as u64) as usize,
+                        65..=89 => cur + rng.range(1, 2 * cur as u64 + 8) as usize,
+                        _ => rng.range(1, 300) as usize,
+                    };
+                    let align = match rng.below(100) {
+                        0..=84 => *rng.pick(&aligns_small),
+                        85..=98 => *rng.pick(&aligns_big),
+                        _ => 8192,
+                    };
+                    if !live.contains(&label) {
+                        live.push(label);
+                    }
+                    sizes.insert(label, size);
+                    cur = cur.max(size);
+                    format!("alloc {label} {size} {align}")
+                }
+                34..=45 => format!("write {live_label} {}", rng.range(1, 255)),
+                46..=62 => {
+                    live.retain(|x| *x != live_label);
+                    format!("dealloc {live_label}")
+                }
+                63..=68 => {
+                    let old = *sizes.get(&live_label).unwrap_or(&1);
+                    let size = match rng.below(100) {
+                        0..=4 => old.saturating_sub(1),
+                        5..=14 => old,
+                        15..=59 => old + rng.range(1, 8) as usize,
+                        _ => old + rng.range(1, 3 * cur as u64 + 8) as usize,
+                    };
+                    let align = if rng.chance(90) { *rng.pick(&aligns_small) } else { *rng.pick(&aligns_big) };
+                    sizes.insert(live_label, size);
+                    cur = cur.max(size);
+                    format!("grow {live_label} {size} {align} {}", if rng.chance(50) { "front" } else { "back" })
+                }
+                69..=80 => {
+                    let v = rng.below(NVIEWS as u64);
+                    let label = if rng.chance(85) { live_label } else { any_label };
+                    if !regs.contains(&(v, label)) {
+                        regs.push((v, label));
+                    }
+                    format!("view_register {v} {label}")
+                }
+                81..=85 => {
+                    let (v, label) = if regs.is_empty() || rng.chance(10) { (rng.below(NVIEWS as u64), any_label) } else { *rng.pick(&regs) };
+                    format!("view_read {v} {label}")
+                }
+                86..=94 => {
+                    let (v, label) = if regs.is_empty() || rng.chance(10) { (rng.below(NVIEWS as u64), any_label) } else { *rng.pick(&regs) };
+                    regs.retain(|x| *x != (v, label));
+                    format!("view_unregister {v} {label}")
+                }
+                95..=97 => "segments".to_string(),
+                _ => format!("view_segments {}", rng.below(NVIEWS as u64)),
+            };
+            lines.push(l);
+        }
+        lines.push("segments".into());
+        lines.push("view_segments 0".into());
+        lines.push("view_segments 1".into());
+        cases.push(lines);
+    }
+    cases
 }
